@@ -139,12 +139,12 @@ def _strip(r, removed):
     for pos in r:
         p = [c for c in pos if c not in removed]
         if p:
-            out.append(sorted(p, key=repr))
+            out.append(sorted(p, key=C.skey))
     return out
 
 
 def _key(r):
-    return tuple(tuple(sorted(p, key=repr)) for p in (r or []))
+    return tuple(tuple(sorted(p, key=C.skey)) for p in (r or []))
 
 
 def _skey(s):
